@@ -15,4 +15,17 @@ sys.path.insert(0, "lib")
 import vv
 vv.build_lib("asan")
 PY
+# warm the Print-Assumptions audit cache (keyed by the hash of each Props file's
+# source closure; a check recomputes it whenever that closure changes)
+python3 - <<'PY' || echo "setup: audit warm-up failed (checks will recompute)"
+import glob, os, sys
+sys.path.insert(0, "lib")
+import vv
+for f in sorted(glob.glob("coq/Props/*.v")):
+    name = os.path.basename(f)[:-2]
+    try:
+        vv.prove(name, vv.STDLIB_AXIOMS)
+    except Exception as e:
+        print("warm-up", name, e)
+PY
 echo "setup done"
